@@ -40,6 +40,7 @@ func (c09) Assumptions() []string {
 
 func (c09) Gates(tier string, m map[string]int64) []rt.Gate {
 	gs := []rt.Gate{
+		rt.GateMin("stores whose keys contain NUL bytes (tuples colliding under a NUL separator)", m, "store_with_nul_bytes", 100),
 		rt.GateMin("aggregate statements judged", m, "judged", 2000),
 		rt.GateMin("stores with colliding concatenations and >=2 grouping expressions", m, "colliding_tuples", 200),
 		rt.GateMin("more groups than the batch size", m, "groups_gt_batch", 100),
@@ -57,6 +58,9 @@ func (c09) Gates(tier string, m map[string]int64) []rt.Gate {
 
 var c09Parts = []string{"a", "ab", "b", "bc", "c", "", "1", "12", "2", "23", "3", "abc"}
 
+// parts with NUL bytes: tuples that collide when joined with a NUL separator
+var c09PartsNul = []string{"a", "a\x00b", "b", "b\x00c", "c", "\x00", "", "a\x00", "\x00b", "\x00\x00"}
+
 func c09Store(r *rt.Rand, floats bool) []refstore.Pair {
 	n := r.Range(0, 40)
 	if r.Chance(1, 10) {
@@ -65,8 +69,12 @@ func c09Store(r *rt.Rand, floats bool) []refstore.Pair {
 	var ps []refstore.Pair
 	ivals := []string{"0", "1", "2", "3", "5", "7", "10", "-1", "-4", "12", "100"}
 	fvals := []string{"0.5", "1.5", "2.0", "-0.25", "0.25", "3.75", "10.5", "2.75", "2.25", "-0.5", "7.5", "7.25"}
+	parts := c09Parts
+	if r.Chance(1, 8) {
+		parts = c09PartsNul
+	}
 	for i := 0; i < n; i++ {
-		p, q := c09Parts[r.Intn(len(c09Parts))], c09Parts[r.Intn(len(c09Parts))]
+		p, q := parts[r.Intn(len(parts))], parts[r.Intn(len(parts))]
 		v := ivals[r.Intn(len(ivals))]
 		if floats {
 			v = fvals[r.Intn(len(fvals))]
@@ -95,6 +103,9 @@ func (k c09) Run(c *rt.Ctx) {
 			pairs[i].V = mixed[r.Intn(len(mixed))]
 		}
 		c.Rec.Inc("implicit_text_class")
+	}
+	if len(pairs) > 0 && strings.Contains(pairs[0].K+pairs[len(pairs)-1].K+pairs[len(pairs)/2].K, "\x00") {
+		c.Rec.Inc("store_with_nul_bytes")
 	}
 	part := func(i int64) *gen.Node { return gen.IndexI(gen.Call("split", gen.Key(), gen.Str("|")), i) }
 	gpool := []*gen.Node{part(0), part(1), gen.Value(), gen.Call("upper", part(0)), gen.Call("strlen", part(1)), gen.Call("int", part(0)), gen.Call("int", part(1)),
